@@ -173,7 +173,14 @@ class SegwitChecker(SolutionChecker):
                 raise ScriptError("witness unexpected", errno.WITNESS_UNEXPECTED)
         else:
             witness_program = puzzle_script[2:]
-            if len(solution_stack) > 0:
+            if is_p2sh:
+                # the scriptSig must be exactly the push of the redeem script
+                is_malleated = tx_context.solution_script != (
+                    self.ScriptTools.compile_push_data_list([puzzle_script])  # type: ignore[attr-defined]
+                )
+            else:
+                is_malleated = len(tx_context.solution_script) > 0
+            if is_malleated:
                 err = (
                     errno.WITNESS_MALLEATED_P2SH if is_p2sh else errno.WITNESS_MALLEATED
                 )
